@@ -29,6 +29,9 @@ pub const REQUIRED: &[&str] = &[
     "game_FE15",
     "three_or_more_layers",
     "layer_list_names_a_directory_twice",
+    "files_around_16MiB",
+    "component_of_252_to_255_bytes",
+    "layer_roots_with_non_ascii_names",
 ];
 
 pub fn run(cx: &mut Ctx) {
@@ -52,6 +55,40 @@ pub fn run(cx: &mut Ctx) {
         }
         let _ = std::fs::remove_dir_all(&dir);
     });
+    // thresholds: files of 2^24-1, 2^24 and 2^24+5 bytes (the compressed formats describe at most 2^24-1)
+    for k in 0..4u64 {
+        cx.case("large_files", |c| {
+            c.sit("files_around_16MiB");
+            let mut rng = c.rng.clone();
+            let scratch = fsx::scratch_dir();
+            let mut w = match fsx::World::new(c, &scratch, &mut rng, Focus::General) {
+                Ok(w) => w,
+                Err(e) => {
+                    c.st.harness_errors.push(e);
+                    return;
+                }
+            };
+            let pat = rng.bytes(7);
+            let size = [(1usize << 24) - 1, 1 << 24, (1 << 24) + 5, (1 << 24) - 1][k as usize];
+            let body: Vec<u8> = (0..size).map(|i| pat[i % 7]).collect();
+            let names = ["big_plain.dat", "big.lz", "big.cmp", "m/big_plain2.bin"];
+            let mut ops = Vec::new();
+            for (i, n) in names.iter().enumerate() {
+                if (i as u64 + k) % 2 == 0 || i == 0 {
+                    ops.push(fsx::FOp::Write(n.to_string(), body.clone(), false));
+                    ops.push(fsx::FOp::Read(n.to_string(), false));
+                    ops.push(fsx::FOp::FileExists(n.to_string(), false));
+                }
+            }
+            for op in &ops {
+                c.eval(1);
+                if !fsx::exec(c, &mut w, op) {
+                    break;
+                }
+            }
+            w.cleanup();
+        });
+    }
     let n = cx.a.n(8_000, 150_000);
     for _ in 0..n {
         cx.case("history", |c| fsx::run_history(c, Focus::General));
